@@ -21,7 +21,8 @@
 //                 bit 11 keep the (joined) Process object and start the next child of the case with it
 //
 // Command lines are built by the rules of DESIGN 4.1: words separated by single spaces, quotes only as "..." segments with
-// \" inside, words non-empty, no other backslashes (a backslash in a word is replaced by '/' in this form only).
+// \" inside, words non-empty; a backslash stays in a word only where it cannot be read as the escape of a quote (otherwise it is
+// replaced by '/' in this form only), and words with such backslashes are compared modulo backslashes.
 #define PBT_MAIN
 #include "pbt.hpp"
 #include <nstd/Process.hpp>
@@ -266,6 +267,7 @@ void runOne(const Op& op, Pending& pd, Ctx& ctx, Process*& kept) {
   char ctl[160];
   snprintf(ctl, sizeof ctl, "x%ld,i%d,O%d,E%d,o%zu,e%zu,f%d,h%d", code, inR && !hang ? 1 : 0, (int)echoOut, (int)echoErr, no, ne, (int)errFirst, (int)hang);
   std::vector<std::string> expArgv;
+  bool freeBackslash = false;
   expArgv.push_back(g_child);
   std::string cmdline;
   if (form != 5) {
@@ -276,7 +278,13 @@ void runOne(const Op& op, Pending& pd, Ctx& ctx, Process*& kept) {
     for (auto& w : pd.args) {
       std::string s = w.s;
       if (form == 0) {
-        for (char& ch : s) if (ch == '\\') ch = '/';
+        // A backslash stays only where it cannot be taken for the escape of a quote: followed by a character that is neither a
+        // quote nor a backslash, and not at the end of the word (words with q bit 2 set keep none at all).
+        for (size_t ci = 0; ci < s.size(); ++ci)
+          if (s[ci] == '\\') {
+            bool keep = !(w.q & 4) && ci + 1 < s.size() && s[ci + 1] != '"' && s[ci + 1] != '\\';
+            if (keep) { freeBackslash = true; } else s[ci] = '/';
+          }
         if (s.empty()) { ctx.count("skipped"); continue; }
         cmdline += " " + renderWord(s, w.q, w.sp, uq, esc);
       }
@@ -284,6 +292,7 @@ void runOne(const Op& op, Pending& pd, Ctx& ctx, Process*& kept) {
     }
     if (uq) ctx.label("cmd_quoted");
     if (esc) ctx.label("cmd_escaped_quote");
+    if (freeBackslash && form == 0) ctx.label(uq ? "cmd_backslash_in_quotes" : "cmd_backslash");
   } else if (variant == 3) cmdline = g_child;
 
   // ---- start
@@ -432,6 +441,12 @@ void runOne(const Op& op, Pending& pd, Ctx& ctx, Process*& kept) {
   std::string bad = parseReport(text, rep);
   if (!bad.empty()) failf(ctx, "bad-report", bad + " (form " + formName + ")");
   if (rep.done != 0) failf(ctx, "child-incomplete", "the child did not finish its stream traffic cleanly (D " + std::to_string(rep.done) + ")");
+  // A backslash that escapes nothing is not covered by the quoting rules of the statement (it may be kept or dropped); such words
+  // are compared without their backslashes. What the statement does demand is that the start terminates and everything else arrives.
+  if (freeBackslash && form == 0) {
+    auto strip = [](std::vector<std::string>& v) { for (auto& w : v) { std::string r; for (char ch : w) if (ch != '\\') r += ch; w = r; } };
+    strip(rep.argv); strip(expArgv);
+  }
   if (rep.argv != expArgv) {
     std::string d = std::string("form ") + formName + ": child argc " + std::to_string(rep.argv.size()) + ", expected " + std::to_string(expArgv.size());
     for (size_t i = 0; i < std::max(rep.argv.size(), expArgv.size()); ++i)
